@@ -858,6 +858,16 @@ func (em *emitter) emitSwitch(node *ast.Switch) {
 		expr = em.emitExpr(node.Expr, typ)
 	}
 
+	// The tag expression is evaluated exactly once: if it is not a constant,
+	// the cases are compared with the register that holds its value.
+	tag := node.Expr
+	if ti := em.ti(node.Expr); !ti.HasValue() {
+		ident := ast.NewIdentifier(node.Expr.Pos(), "$switchtag")
+		em.typeInfos[ident] = &typeInfo{Type: typ}
+		em.fb.bindVarReg(ident.Name, expr)
+		tag = ident
+	}
+
 	bodyLabels := make([]label, len(node.Cases))
 	endSwitchLabel := em.fb.newLabel()
 
@@ -870,7 +880,7 @@ func (em *emitter) emitSwitch(node *ast.Switch) {
 		for _, caseExpr := range cas.Expressions {
 			em.fb.enterStack()
 			pos := caseExpr.Pos()
-			binOp := ast.NewBinaryOperator(pos, ast.OperatorNotEqual, node.Expr, caseExpr)
+			binOp := ast.NewBinaryOperator(pos, ast.OperatorNotEqual, tag, caseExpr)
 			em.typeInfos[binOp] = &typeInfo{
 				Type: boolType,
 			}
